@@ -19,7 +19,7 @@ import (
 var c08Frags = []string{
 	bn.KwVar, bn.KwFun, bn.KwIf, bn.KwElse, bn.KwWhile, bn.KwFor, bn.KwPrint, bn.KwReturn, bn.KwBreak, bn.KwContinue,
 	bn.KwTrue, bn.KwNil, bn.KwOr, bn.KwAnd,
-	"a", "ক", bn.BLen, "input", "1", "১.৫", "\"s\"",
+	"a", "ক", bn.BLen, "input", "1", "১.৫", "\"s\"", "\x00",
 	"+", "-", "*", "/", "%", "**", "!", "~", "=", "==", "!=", "<", "<=", "<<", ">", ">>", "&", "&&", "|", "||", "^",
 	"(", ")", "[", "]", "{", "}", ",", ".", ":", ";",
 	"\"", "//", "/*", "*/", "#", "\n", " ",
@@ -165,7 +165,7 @@ func TestC08(t *testing.T) {
 			if c.Shard != 0 {
 				return
 			}
-			heads := []string{"", "x = \"a\nb\nc\";\n", "/* c1\nc2\nc3 */\n", "// lc\n\n\n", "x = \"a\nb\"; /* m\nn */ // t\n", "\n\n\t\n", "x = [\n1,\n2\n];\n", bn.KwFun + " f(\na,\nb\n) {\n" + bn.KwReturn + "\na;\n}\n"}
+			heads := []string{"x = \"a\x00b\";\n", "// c\x00d\n", "/* \x00 */", "x = \"\x00\"; // \x00\n", "x = \"a\u00a0\ufeff\u200b\"; // \u2028 \u0085\n", "", "x = \"a\nb\nc\";\n", "/* c1\nc2\nc3 */\n", "// lc\n\n\n", "x = \"a\nb\"; /* m\nn */ // t\n", "\n\n\t\n", "x = [\n1,\n2\n];\n", bn.KwFun + " f(\na,\nb\n) {\n" + bn.KwReturn + "\na;\n}\n"}
 			tails := []string{bn.KwPrint + " 1", bn.KwPrint + " ;", "1 = 2;", "(", ")", "}", "{", "a.;", "a[1;", "f(1,;", bn.KwIf + " (1", bn.KwIf + " (1)", bn.KwElse + " 1;", bn.KwFor + " (;;", bn.KwFor + " (;;)", bn.KwWhile + " (", bn.KwFun + " g(", bn.KwFun + " g() {", bn.KwVar + " ", bn.KwVar + " v =", bn.KwVar + " " + bn.BLen + ";",
 				bn.KwReturn + " ", "x = {k: 1", "x = {k: ", "x = {k", "x = [1, ", "\"open", "/* open", "#", "1 +", "1 + ;", "!", "a b;", "a = = 1;", bn.KwBreak, bn.KwContinue + " 1;"}
 			for _, h := range heads {
